@@ -65,6 +65,7 @@ class Engine:
         self.eigh_contract = False
         self.eigh_hook = None
         self.exact_sqrt_consts = False
+        self.concretize_unique_ints = False   # astype(int) returns a python int when the path condition leaves one value
         self.branch_oracle = None   # concolic guidance: callable(z3 bool) -> True / False / None (DESIGN 1.3)
         self.path_status = {}
 
@@ -882,7 +883,12 @@ class Sym(numbers.Number):
                 return Sym(self.z / oz)   # z3 integer division == floor for positive divisor
             if v is not None and v < 0:
                 return Sym(_floordiv_neg(self.z, oz))
-            raise Unsupported('int // symbolic or zero divisor')
+            if v is None:
+                # symbolic integer divisor: case split on its value under solver control (like __index__)
+                c = Sym(oz).concretize()
+                if c != 0:
+                    return self // c
+            raise Unsupported('int // zero divisor')
         a, b = _coerce(self.z, oz)
         a = z3.ToReal(a) if z3.is_int(a) else a
         b = z3.ToReal(b) if z3.is_int(b) else b
@@ -991,9 +997,39 @@ class Sym(numbers.Number):
 
     def __int__(self):
         if not self.isint:
-            t = Sym(z3.If(self.z >= 0, z3.ToInt(self.z), -z3.ToInt(-self.z)))
-            return t.concretize()
+            # truncation through fresh floor integers (f <= x < f+1): their model values are numerals even when x itself is an
+            # algebraic number (sqrt contracts) or a quotient, which to_int terms are not
+            v = self._unique_trunc()
+            if v is not None:
+                return v
+            return self.__trunc__().concretize()
         return self.concretize()
+
+    def _unique_trunc(self):
+        """int(x) for a real term without a fork when the path condition pins it: candidate from a model, then two queries with
+        a purely real goal (x < c, x >= c+1) must both be unsat; only for non-negative candidates.  Recorded with the decisions."""
+        n = len(ENG.decisions)
+        if n < len(ENG.prefix) and isinstance(ENG.prefix[n], tuple) and ENG.prefix[n][0] == 'utrunc':
+            ENG.decisions.append(ENG.prefix[n])
+            return ENG.prefix[n][1]
+        val = None
+        r, s_ = ENG.check()
+        if r == 'sat':
+            mv = s_.model().eval(self.z, model_completion=True)
+            try:
+                if z3.is_algebraic_value(mv):
+                    mv = mv.approx(20)
+                fv = Fraction(mv.numerator_as_long(), mv.denominator_as_long())
+                cand = math.floor(fv)
+            except Exception:
+                cand = None
+            if cand is not None and cand >= 0:
+                r1, _ = ENG.check(self.z < cand)
+                r2, _ = ENG.check(self.z >= cand + 1) if r1 == 'unsat' else ('skip', None)
+                if r1 == 'unsat' and r2 == 'unsat':
+                    val = cand
+        ENG.decisions.append(('utrunc', val))
+        return val
 
     def __float__(self):
         v = _numval(z3.simplify(self.z))
@@ -1021,11 +1057,36 @@ class Sym(numbers.Number):
                     raise Infeasible('no value left for a case split')
                 if r != 'sat':
                     raise Abort('concretize: %s' % r)
-                val = s.model().eval(self.z, model_completion=True).as_long()
+                mv = z3.simplify(s.model().eval(self.z, model_completion=True))
+                if not z3.is_int_value(mv):
+                    raise Abort('concretize: model value of the integer term is not a numeral')
+                val = mv.as_long()
                 ENG.decisions.append(('val', val))
             if ENG.branch(self.z == val):
                 return val
         raise Abort('concretize: more than %d values' % limit)
+
+    def unique_int(self):
+        """python int if the path condition leaves exactly one value for this integer term, else None (no fork: two queries;
+        the outcome is recorded with the decisions so that a replayed prefix sees the same)"""
+        zs = z3.simplify(self.z)
+        if z3.is_int_value(zs):
+            return zs.as_long()
+        if not self.isint:
+            return None
+        n = len(ENG.decisions)
+        if n < len(ENG.prefix) and isinstance(ENG.prefix[n], tuple) and ENG.prefix[n][0] == 'uniq':
+            ENG.decisions.append(ENG.prefix[n])
+            return ENG.prefix[n][1]
+        val = None
+        r, s_ = ENG.check()
+        if r == 'sat':
+            cand = s_.model().eval(self.z, model_completion=True).as_long()
+            r2, _ = ENG.check(self.z != cand)
+            if r2 == 'unsat':
+                val = cand
+        ENG.decisions.append(('uniq', val))
+        return val
 
     # ---- rounding
     def __floor__(self):
